@@ -66,11 +66,11 @@ def confirm(prop, outdir, wt, tag):
     return res
 
 
-def detect(names, tier, runs=None):
+def detect(names, tier, runs=None, check=None):
     rows = []
     for name in names:
         d = os.path.join(SEEDED, name)
-        prop = name.split("-")[0]
+        prop = check or name.split("-")[0]
         patch = os.path.join(d, "patch.diff")
         # a scratch worktree of /repo's HEAD with the change applied; /repo itself is never touched
         wt = "/tmp/seeded-wt-%s" % prop; outd = "/tmp/seeded-out-%s" % prop
@@ -89,7 +89,7 @@ def detect(names, tier, runs=None):
         sigs = [l.strip().split(": ")[0] for l in o.splitlines() if l.startswith("  C")]
         verdict = "DETECTED" if c == 1 else ("missed" if c == 0 else "machinery-error(exit %d)" % c)
         rec = {"name": name, "check": cmd, "exit": c, "verdict": verdict, "signatures": sigs, "wall_s": round(time.time() - t0, 1), "output_tail": o.strip().splitlines()[-12:]}
-        json.dump(rec, open(os.path.join(d, "detect.json"), "w"), indent=1)
+        json.dump(rec, open(os.path.join(d, "detect.json" if not check else "detect-%s.json" % check), "w"), indent=1)
         rows.append((name, verdict, "; ".join(sigs)[:200]))
         print("%-24s %-10s %s" % rows[-1], flush=True)
         # replay files written for seeded changes are not kept
@@ -120,7 +120,14 @@ def table():
         for sg in t.get("signatures", []):
             if sg not in sigs:
                 sigs.append(sg)
-        rows.append("| %s | %s | %s | %s | %s |" % (name, summ.replace("|", "/"), need.replace("|", "/"), t.get("verdict", "not run"), "; ".join(sigs[:3]).replace("|", "/")[:260]))
+        verdict = t.get("verdict", "not run")
+        for f in sorted(glob.glob(os.path.join(d, "detect-*.json"))):
+            x = json.load(open(f))
+            verdict += "; by %s: %s" % (os.path.basename(f)[7:-5], x.get("verdict"))
+            for sg in x.get("signatures", [])[:2]:
+                if sg not in sigs:
+                    sigs.append(sg)
+        rows.append("| %s | %s | %s | %s | %s |" % (name, summ.replace("|", "/"), need.replace("|", "/"), verdict, "; ".join(sigs[:3]).replace("|", "/")[:260]))
     print("| seeded change | what was changed | needs | quick check | first signatures |")
     print("|---|---|---|---|---|")
     print("\n".join(rows))
@@ -132,15 +139,16 @@ if __name__ == "__main__":
         tag = a[4] if len(a) > 4 else "a"
         confirm(a[1], a[2], a[3], tag)
     elif a and a[0] == "detect":
-        tier = "quick"; runs = None; names = []
+        tier = "quick"; runs = None; names = []; chk = None
         i = 1
         while i < len(a):
             if a[i] == "--tier": tier = a[i + 1]; i += 2
             elif a[i] == "--runs": runs = int(a[i + 1]); i += 2
+            elif a[i] == "--check": chk = a[i + 1]; i += 2
             else: names.append(a[i]); i += 1
         if not names:
             names = sorted(os.listdir(SEEDED))
-        sys.exit(detect(names, tier, runs))
+        sys.exit(detect(names, tier, runs, chk))
     elif a and a[0] == "table":
         table()
     else:
